@@ -20,7 +20,8 @@ def envHas (m a : String) : Bool :=
 def refOk (r : Refs.Ref) : Bool := r.guarded || envHas r.module r.attr
 def refNotTooNew (r : Refs.Ref) : Bool := r.guarded || !Refs.tooNew.contains (r.module, r.attr)
 def impOk (i : Refs.Imp) : Bool :=
-  i.guarded || (if i.optional then Refs.optionalFiles.contains i.file else (Env.modules.lookup i.module).isSome)
+  i.guarded || (if i.optional then Refs.optionalFiles.contains i.file
+                else i.declared && (Env.modules.lookup i.module).isSome)
 
 /-- every unguarded reference resolves in the installed numpy / scipy / h5py / standard library -/
 theorem C20_all_refs_resolve :
@@ -41,12 +42,13 @@ theorem C20_no_ref_newer_than_declared_minimum :
     decide_eq_false_iff_not] at this
   exact this
 
-/-- every imported external module is importable in the installed set, and optional dependencies
-(PySpice, matplotlib) are imported only by the files documented as needing them -/
+/-- every imported external module is part of the standard library or of `install_requires` in setup.py
+(`declared`; the list is re-read from setup.py on every run) and importable in the installed set, and
+optional dependencies (PySpice, matplotlib) are imported only by the files documented as needing them -/
 theorem C20_imports_resolve :
     ∀ i ∈ Refs.imports, i.guarded = true ∨
       (i.optional = true ∧ i.file ∈ Refs.optionalFiles) ∨
-      (i.optional = false ∧ (Env.modules.lookup i.module).isSome = true) := by
+      (i.optional = false ∧ i.declared = true ∧ (Env.modules.lookup i.module).isSome = true) := by
   have h : Refs.imports.all impOk = true := by decide +kernel
   intro i hi
   have := (List.all_eq_true.mp h) i hi
@@ -60,3 +62,8 @@ theorem C20_imports_resolve :
 example : 100 < Refs.refs.length ∧ 10 < Env.modules.length := by decide +kernel
 example : (Refs.refs.filter (fun r => !r.guarded)).length > 100 := by decide +kernel
 example : envHas "numpy" "float_" = false ∧ envHas "numpy" "float64" = true := by decide +kernel
+-- attribute references on the results of numpy array constructors (`np.asarray(x).attr`) are rows of
+-- `Refs.refs` with module `numpy.ndarray`, checked against `dir(numpy.ndarray)` by `C20_all_refs_resolve`
+example : envHas "numpy.ndarray" "ptp" = false ∧ envHas "numpy.ndarray" "T" = true := by decide +kernel
+example : ["numpy", "scipy", "h5py"].all (Refs.declaredRequirements.contains ·) = true := by decide +kernel
+example : (Refs.imports.filter (fun i => !i.declared && !i.optional)).length = 0 := by decide +kernel
